@@ -74,6 +74,10 @@ def cost_catalog():
         "K4_8": kron(D(8, 6), D(8, 7), D(8, 8), D(8, 9)),
         "K2_96": kron(D(96, 10), D(96, 11)),
         "KS_64": kronsum(D(64, 12), D(64, 13)),
+        # positive definite product of two NEGATIVE definite factors: the factor-wise Cholesky rule cannot succeed; it may
+        # refuse (LinAlgError), it must not fall back to the dense n x n matrix
+        "K2_64_neg": ({"k": "Kronecker", "a": [{"k": "Dense", "r": 64, "c": 64}] * 2},
+                      (lambda: ops.Kronecker(ops.Dense(-spd(64, 22)), ops.Dense(-spd(64, 23))))),
         "KS3_16": kronsum(D(16, 19), D(16, 20), D(16, 21)),
         "BD_32x64_64x32": blockdiag([D(32, 14), D(64, 15)], [64, 32]),
         "BD_K": blockdiag([kron(D(16, 16), D(16, 17)), D(64, 18)], [8, 32]),
@@ -106,6 +110,8 @@ def entry_points(name, root):
     from cola.linalg.trace.diagonal_estimation import Exact
     from cola.linalg.unary.unary import Eigh
     E = [("matmul", lambda A, X: A @ X)]
+    if name.endswith("_neg"):
+        return E + [("cholesky", lambda A, X: cholesky(A) @ X)]
     inv_kinds = ("Kronecker", "BlockDiag", "Diagonal", "Identity", "ScalarMul", "Product")
     if root in inv_kinds:
         E += [("inv()", lambda A, X: cola.linalg.inv(A) @ X),
@@ -290,9 +296,11 @@ def _run(tier, t0, viol, sub):
             limit = 64 * m["n"] + VEC_FLOOR
         dense_bytes = m["n"] * m["n"] * 8
         at = {"case": m["name"], "entry": m["entry"], "root": m["root"], "n": m["n"]}
-        if m["error"]:
-            if "only valid for" in m["error"]:
-                continue
+        refusal = bool(m["error"]) and ("only valid for" in m["error"] or (m["name"].endswith("_neg")
+                                                                           and m["error"].startswith("LinAlgError")))
+        if refusal and m["peak_bytes"] <= limit:
+            continue            # an error path is held to the same memory budget as a result
+        if m["error"] and not refusal:
             viol.append(Violation(PROP, "exception", f"{m['entry']} on {m['name']}", dict(at, error=m["error"]),
                                   f"raised {m['error']}", replay={"case": m["name"], "entry": m["entry"]}))
         elif m["peak_bytes"] > limit:
